@@ -167,3 +167,103 @@ func verifPBLInvariant(bl *PersistentBlockList, what string) {
 	vnd.Assert(bl.blockReleaseWakeup.isBlocking == (len(bl.blocksToRelease) == 0), what+": release wake-up flag does not reflect 'blocks await release'")
 	vnd.Assert(verifChanClosed(bl.blockReleaseWakeup.channel) == !bl.blockReleaseWakeup.isBlocking, what+": release wake-up channel state differs from its flag")
 }
+
+func verifPBLBounds() (int, int, int) {
+	if vnd.Thorough() {
+		return 3, 2, 2
+	}
+	return 2, 2, 1
+}
+
+// verifScenarioPBLMethod: one method from an arbitrary valid state (shared by C02 P1 and C07 L1).
+func verifScenarioPBLMethod() {
+	mb, me, mp := verifPBLBounds()
+	x := verifNewPBL(mb, me, mp)
+	bl := x.bl
+	verifPBLInvariant(bl, "generated state")
+	switch vnd.Choose(6) {
+	case 0:
+		if len(bl.blocks) == 0 {
+			return
+		}
+		vnd.Cover("popfront")
+		bl.PopFront()
+	case 1:
+		vnd.Cover("pushback")
+		x.alloc.fail = vnd.Choose(2) == 1
+		bl.PushBack()
+	case 2:
+		vnd.Cover("syncstarting")
+		bl.NotifySyncStarting(vnd.Choose(2) == 1)
+	case 3:
+		vnd.Cover("synccompleted")
+		bl.NotifySyncCompleted()
+	case 4:
+		vnd.Cover("getstate")
+		bl.GetPersistentState()
+	case 5:
+		vnd.Cover("statewritten")
+		bl.NotifyPersistentStateWritten()
+	}
+	verifPBLInvariant(bl, "after the operation")
+}
+
+// verifScenarioPBLFinalizer: an upload finalizer with rotation and sync notifications in between (C02 P2, C07 L1b).
+func verifScenarioPBLFinalizer() {
+	mb, me, mp := verifPBLBounds()
+	if !vnd.Thorough() {
+		me = 1 // quick: at most one epoch per block here; the per-method lemma covers two
+	}
+	x := verifNewPBL(mb, me, mp)
+	bl := x.bl
+	if len(bl.blocks) == 0 {
+		vnd.Cover("empty")
+		return
+	}
+	idx := vnd.Choose(len(bl.blocks))
+	sb := x.blocks[idx]
+	size := int64(vnd.Int(0, 1<<30))
+	sb.finalOff = int64(vnd.Int(0, 1<<30))
+	sb.finalFail = vnd.Choose(2) == 1
+	abs := bl.totalBlocksReleased + idx
+	w := bl.Put(idx, size)
+	// between allocation and finalisation: pops, a sync start, a sync completion
+	pops := vnd.Choose(len(bl.blocks) + 1)
+	for i := 0; i < pops; i++ {
+		bl.PopFront()
+	}
+	if vnd.Choose(2) == 1 {
+		bl.NotifySyncStarting(false)
+		if vnd.Choose(2) == 1 {
+			bl.NotifySyncCompleted()
+		}
+	}
+	syncingBefore := bl.synchronizingEpochs
+	src := &verifSource{data: verifObjData}
+	fin := w(buffer.NewCASBufferFromReader(verifObjDigest, src, buffer.UserProvided))
+	off, err := fin()
+	verifPBLInvariant(bl, "after a finalizer")
+	vnd.Assert(src.closes == 1, "upload buffer not consumed or released exactly once")
+	if err == nil {
+		vnd.Cover("finalized")
+		vnd.Assert(!sb.finalFail, "finalizer succeeded although the block's own finalizer failed")
+		vnd.Assert(abs >= bl.totalBlocksReleased, "finalizer succeeded although the target block has been released")
+		vnd.Assert(off == sb.finalOff, "finalizer does not return the offset reported by the block")
+		E := len(bl.epochHashSeeds)
+		vnd.Assert(E > syncingBefore, "the blob's epoch is part of a synchronisation that had already started")
+		vnd.Assert(E > bl.synchronizingEpochs, "the blob's epoch is marked as synchronizing")
+		vnd.Assert(bl.epochLastAbsoluteBlockIndex[E-1] >= abs, "the newest epoch does not reach the blob's block")
+		bi := &bl.blocks[abs-bl.totalBlocksReleased]
+		vnd.Assert(bi.writtenOffsetBytes >= off+size, "written offset of the block does not cover the blob")
+		// the reference handed to the index resolves back to this very block
+		ref, _ := bl.BlockIndexToBlockReference(abs - bl.totalBlocksReleased)
+		ri, _, ok := bl.BlockReferenceToBlockIndex(ref)
+		vnd.Assert(ok && ri == abs-bl.totalBlocksReleased, "the reference for the blob's block does not resolve back to it")
+		vnd.Assert(!bl.blockPutWakeup.isBlocking, "an acknowledged upload left the put wake-up blocked (no synchronisation would follow)")
+	} else {
+		vnd.Cover("rejected")
+		if !sb.finalFail && !bl.closedForWriting {
+			vnd.Assert(abs < bl.totalBlocksReleased, "finalizer failed without a reason")
+		}
+	}
+}
